@@ -338,7 +338,7 @@ RULES = {
     "R19": [(".map(Into::into)", ".map(|x: S| -> (r: String) ensures r@ == into_string::<S>(x) { x.into() })")],
     # R18: the fn item `String::len` as a closure value -> a closure with the contract of the prelude's String::len
     "R18": [("map_or(0, String::len)", "map_or(0, |s: &String| -> (r: usize) ensures r == byte_len(s@) { s.len() })")],
-    # R17 (computed): `v.iter().map(f).max()` -> shim `v.vmax_map(f)`, `v.iter().map(f).min()` -> `v.vmin_map(f)`
+    # R17 (computed): `v.iter().map(f).max()` -> shim `v.vmax_map(f)`, `.min()` -> `v.vmin_map(f)`; `m.values().map(f).max()` -> `m.vmax_values_map(f)`
     "R17": [],
     # R13 (computed): `v.iter().filter_map(f).max()` (provided trait methods) -> shim `v.vmax_filter_map(f)`
     "R13": [],
@@ -422,18 +422,19 @@ def apply_rule(sf, a, b, rule, edits):
             hits += 1
         return hits
     if rule == "R17":
-        pat = [".", "iter", "(", ")", ".", "map", "("]
-        for p in range(len(sigidx) - len(pat)):
-            if [toks[sigidx[p + q]].text for q in range(len(pat))] == pat:
-                open_k = sigidx[p + len(pat) - 1]
-                close_k = sf.br[open_k]
-                tail = [k for k in sigidx if k > close_k][:4]
-                tt = [toks[k].text for k in tail]
-                if tt not in ([".", "max", "(", ")"], [".", "min", "(", ")"]):
-                    continue
-                edits.replace(sigidx[p], sigidx[p + 5] + 1, [Piece(".v%s_map" % tt[1], sf, toks[sigidx[p]].start)])
-                edits.replace(tail[0], tail[3] + 1, [Piece("")])
-                hits += 1
+        for src, infix in (("iter", ""), ("values", "_values")):
+            pat = [".", src, "(", ")", ".", "map", "("]
+            for p in range(len(sigidx) - len(pat)):
+                if [toks[sigidx[p + q]].text for q in range(len(pat))] == pat:
+                    open_k = sigidx[p + len(pat) - 1]
+                    close_k = sf.br[open_k]
+                    tail = [k for k in sigidx if k > close_k][:4]
+                    tt = [toks[k].text for k in tail]
+                    if tt not in ([".", "max", "(", ")"], [".", "min", "(", ")"]):
+                        continue
+                    edits.replace(sigidx[p], sigidx[p + 5] + 1, [Piece(".v%s%s_map" % (tt[1], infix), sf, toks[sigidx[p]].start)])
+                    edits.replace(tail[0], tail[3] + 1, [Piece("")])
+                    hits += 1
         return hits
     if rule == "R13":
         # `$E.iter().filter_map(<closure>).max()` -> `$E.vmax_filter_map(<closure>)`
@@ -843,6 +844,146 @@ def find_seq(sf, a, b, text):
     return None
 
 
+CLOSURE_SNAPSHOT = None      # {"<unit>": {"<fn name>": [normalized closure texts of the tree the contracts were written for]}}
+CURRENT_UNIT = None
+AUTOENS = {}                  # method name -> spec expression with $x (template directive `//@ autoens m => expr`)
+_PURE_OPS = set("== != < > <= >= && || ! * & ( ) . ::".split()) | {"=", "<", ">", "&", "|", ":"}
+
+
+def load_closure_snapshot(verif_root):
+    global CLOSURE_SNAPSHOT
+    import json
+    path = os.path.join(verif_root, "selftest", "closures.json")
+    CLOSURE_SNAPSHOT = json.load(open(path)) if os.path.exists(path) else {}
+
+
+def _pure_bool_expr(sf, body, bend, params):
+    """the closure body [body, bend) is an expression over the parameters built from field accesses, enum / const paths, literals,
+    comparisons and boolean operators only (no calls): then `r == (<body>)` is its exact contract. Returns the text or None."""
+    toks = sf.toks
+    sig = [k for k in range(body, bend) if toks[k].kind not in TRIVIA]
+    if not sig or toks[sig[0]].text == "{":
+        return None
+    has_cmp = False
+    subst = {}      # index in sig of a parameter `x` in `x.m()` with m listed by `//@ autoens` -> (last index, spec text)
+    for i, k in enumerate(sig):
+        tt = [toks[j].text for j in sig[i:i + 5]]
+        if len(tt) == 5 and toks[k].kind == "ident" and tt[0] in params and tt[1] == "." and tt[3:] == ["(", ")"] and tt[2] in AUTOENS:
+            subst[i] = (i + 4, AUTOENS[tt[2]][1].replace("$x", tt[0]))
+    skip_until = -1
+    for i, k in enumerate(sig):
+        if i <= skip_until:
+            continue
+        if i in subst:
+            skip_until = subst[i][0]
+            continue
+        t = toks[k]
+        nxt = toks[sig[i + 1]].text if i + 1 < len(sig) else ""
+        if t.kind == "ident":
+            nxt2 = toks[sig[i + 2]].text if i + 2 < len(sig) else ""
+            if nxt == "(" or (nxt == "!" and nxt2 in ("(", "[", "{")):
+                return None        # a call or a macro
+            prev = toks[sig[i - 1]].text if i > 0 else ""
+            if t.text not in params and prev != "." and not t.text[0].isupper() and not (prev == ":" ):
+                return None        # a captured variable or something else we do not understand
+        elif t.kind in ("num", "char"):
+            pass
+        elif t.text in ("==", "!=", "<=", ">=", "<", ">", "&&", "||", "=", "!"):
+            has_cmp = True
+        elif t.text in ("*", "&", "(", ")", ".", ":"):
+            pass
+        else:
+            return None
+    if not has_cmp:
+        return None
+    out, i = "", 0
+    while i < len(sig):
+        glue = "" if (i > 0 and toks[sig[i - 1]].end == toks[sig[i]].start) else " "
+        if i in subst:
+            out += glue + subst[i][1]
+            i = subst[i][0] + 1
+            continue
+        out += glue + toks[sig[i]].text
+        i += 1
+    return out.strip()
+
+
+def audit_closures(d, sf, lo, hi, ed, fname, entry, r3b=False):
+    """bookkeeping for closures without contract: a closure that is not in the snapshot of the tree the contracts were written for
+    and has no annotation is `new`; for a new closure that is a pure boolean expression over its single parameter, or a single
+    method call listed by `//@ autoens`, the exact contract is generated; the others are recorded (bin/check reports failures of a
+    function with such closures as undecided: their results are over-approximated)."""
+    toks = sf.toks
+    cls = find_closures(sf, lo, hi)
+    annotated = set()
+    for n in d.closures:
+        if isinstance(n, str):
+            snip = norm(n[1:])
+            cands = [c for c in cls if snip in norm_tokens(toks[c[0]:c[3]])]
+            if cands:
+                annotated.add(min(cands, key=lambda c: c[3] - c[0])[0])
+        elif 1 <= n <= len(cls):
+            annotated.add(cls[n - 1][0])
+    known = set((CLOSURE_SNAPSHOT or {}).get(CURRENT_UNIT or "", {}).get(fname, []))
+    texts, new_plain, auto = [], [], []
+    for (p0, p1, body, bend, block) in cls:
+        txt = norm_tokens(toks[p0:bend])
+        texts.append(txt)
+        if p0 in annotated or CLOSURE_SNAPSHOT is None or txt in known:
+            continue
+        if block:
+            last = [k for k in range(body + 1, bend - 1) if toks[k].kind not in TRIVIA]
+            if not last or toks[last[-1]].text == ";":
+                continue    # the closure's value is `()`: nothing is over-approximated
+        params = [toks[k].text for k in range(p0 + 1, p1) if toks[k].kind == "ident"]
+        inner = [k for k in range(p0 + 1, p1) if toks[k].kind not in TRIVIA]
+        single = len(inner) == 1 and len(params) == 1
+        done = False
+        tuple_pat = bool(inner) and toks[inner[0]].text == "(" and sf.br[inner[0]] == inner[-1]
+        if tuple_pat and r3b and not block:
+            # rule R3b has turned `|(a, b)| body` into `|p0__| { let (a, b) = p0__; body }`: a pure boolean body gets its contract
+            # over p0__ (`*a` and `a` both stand for the component p0__.0)
+            comps = [toks[k].text for k in inner[1:-1] if toks[k].text != ","]
+            expr = _pure_bool_expr(sf, body, bend, set(c for c in comps if c != "_"))
+            if expr and all(re.match(r"^\w+$", c) for c in comps):
+                sig = [k for k in range(body, bend) if toks[k].kind not in TRIVIA]
+                out, i = "", 0
+                while i < len(sig):
+                    t = toks[sig[i]].text
+                    prev = toks[sig[i - 1]].text if i > 0 else ""
+                    glue = "" if (i > 0 and toks[sig[i - 1]].end == toks[sig[i]].start) else " "
+                    if t == "*" and i + 1 < len(sig) and toks[sig[i + 1]].text in comps and toks[sig[i + 1]].text != "_":
+                        out += glue + "p0__.%d" % comps.index(toks[sig[i + 1]].text)
+                        i += 2
+                        continue
+                    if toks[sig[i]].kind == "ident" and t in comps and t != "_" and prev != ".":
+                        out += glue + "p0__.%d" % comps.index(t)
+                    else:
+                        out += glue + t
+                    i += 1
+                # R3b has inserted `{ let .. = p0__; ` before the body and ` }` after it: the contract goes before that block
+                ed.before[body] = [Piece("-> (r__: bool) ensures r__ == (%s), " % out.strip(), label="kw")] + ed.before.get(body, [])
+                done = True
+        if single and not block:
+            expr = _pure_bool_expr(sf, body, bend, set(params))
+            if expr:
+                ed.insert_before(body, [Piece("-> (r__: bool) ensures r__ == (%s), { " % expr, label="kw")])
+                ed.insert_before(bend, [Piece(" }", label="kw")])
+                done = True
+            else:
+                sig = [k for k in range(body, bend) if toks[k].kind not in TRIVIA]
+                tt = [toks[k].text for k in sig]
+                if len(tt) == 5 and tt[0] == params[0] and tt[1] == "." and tt[3:] == ["(", ")"] and tt[2] in AUTOENS:
+                    ret, spec = AUTOENS[tt[2]]
+                    ed.insert_before(body, [Piece("-> (r__: %s) ensures r__ == %s, { " % (ret, spec.replace("$x", params[0])), label="kw")])
+                    ed.insert_before(bend, [Piece(" }", label="kw")])
+                    done = True
+        (auto if done else new_plain).append(txt)
+    entry["closure_texts"] = texts
+    entry["new_unannotated_closures"] = new_plain
+    entry["auto_contract_closures"] = auto
+
+
 def weave_closures(d, sf, lo, hi, ed, rule_hits):
     """closure annotations (by ordinal or by text anchor) inside the token range [lo, hi)"""
     toks = sf.toks
@@ -955,6 +1096,7 @@ def _render_span(d, it, repo_root, registry):
                      "line": toks[f[0]].line, "rules": rule_hits, "cfg_true": cfg_t, "cfg_false": cfg_f,
                      "clauses": [(k, c.label, c.props) for sp in d.closures.values() for k in ("req", "ens") for c in sp.get(k, [])], "canary": False,
                      "tline": d.tline, "span": True})
+    audit_closures(d, sf, f[0], end, ed, registry[-1]["name"], registry[-1], "R3b" in rule_hits)
     ind = indent_of(sf, f[0])
     return [Piece(ind, label="indent")] + render_tokens(sf, f[0], end, ed) + [Piece("\n", label="nl")]
 
@@ -1110,8 +1252,13 @@ def render_item(d, it, repo_root, registry):
             raise ExtractError("anchor lost: %r occurs %d times in %s, the contract's oracle allows at most %d" % (txt, hits, it.name, n))
     if pre:
         ed.insert_before(it.first, pre)
+    audit = {}
+    if d.mode == "fn" and it.kind == "fn" and it.body_open is not None:
+        audit_closures(d, sf, it.body_open + 1, it.body_close, ed, fname, audit, "R3b" in rule_hits)
     pieces = render_tokens(sf, a, b, ed)
     registry.append({
+        "closure_texts": audit.get("closure_texts", []), "new_unannotated_closures": audit.get("new_unannotated_closures", []),
+        "auto_contract_closures": audit.get("auto_contract_closures", []),
         "mode": d.mode, "file": os.path.relpath(sf.path, repo_root), "item": d.query, "name": fname,
         "line": toks[it.first].line, "rules": dict(rule_hits), "cfg_true": cfg_t, "cfg_false": cfg_f,
         "clauses": [(c.kind, c.label, c.props) for c in d.clauses]
@@ -1293,6 +1440,11 @@ def expand(template_path, repo_root, verif_root, registry, _depth=0):
         md = re.match(r"^\s*//@ defaults rule (\S+) \*\s*$", line)
         if md:
             default_rules.append((md.group(1), -1))
+            i += 1
+            continue
+        ma = re.match(r"^\s*//@ autoens (\w+) -> (\S+) => (.+)$", line)
+        if ma:
+            AUTOENS[ma.group(1)] = (ma.group(2), ma.group(3).strip())
             i += 1
             continue
         if re.match(r"^\s*//@ literals\s*$", line):
